@@ -86,6 +86,26 @@ def generic_run(prop, spec, tier, seed):
             maxsize=part.get("maxsize", 100) if quick else part.get("thorough_maxsize", 100))
         counters, fps, smp, nts = runner.merge_reports(reports)
         timeouts += infos.get("timeouts", 0)
+        # a worker that had to be killed: load, or a call of lcdb that never returns?  The case it was running is replayed
+        # alone with a generous limit; only a case that hangs alone, twice, is a stuck call (C09's statement).  Engines whose
+        # single cases can legitimately run for minutes (crash-image exploration) are left as inconclusive.
+        if part["engine"] in ("hist", "conc", "fault"):
+            for text in infos.get("hung_cases", [])[:2]:
+                tmpc = os.path.join(runner.SCRATCH, "lcdb-verif-hang.%d.case" % os.getpid())
+                with open(tmpc, "w") as f:
+                    f.write(text)
+                r1 = runner.run_replay(exe, tmpc, extra, timeout=300)
+                r2 = runner.run_replay(exe, tmpc, extra, timeout=300) if r1[0] == "timeout" else r1
+                os.unlink(tmpc)
+                if r1[0] == "timeout" and r2[0] == "timeout":
+                    path = runner.save_replay(prop, text)
+                    print("VIOLATION property=%s replay=%s" % (prop, path))
+                    print("  hang%s: the case does not finish within 300 s when run alone (twice): a call never returns" % _tagnote("C09", prop))
+                    violations.append(path)
+                elif r2[0] not in ("pass", "timeout"):
+                    failures.append({"worker": -1, "outcome": r2, "case_text": text, "log_tail": ""})   # fails alone: normal confirmation path
+                else:
+                    nts.append("a worker was killed at the wall limit; its case finishes when run alone (%s): load, not a hang" % r2[0])
         confirmed = 0
         for f in failures:
             oc = f["outcome"]
